@@ -220,6 +220,22 @@ VerdictStored ==
      LastN.nm = (IF LastN.op = "cmp_check" THEN CheckVerdict(LastN.args[1]) ELSE RealModeVerdict(LastN.args[1]))
 
 -----------------------------------------------------------------------------
+(* Conditionals below a compared operand.  conditional(c, t, f) has no handler of its own:   *)
+(* expr() types it by ALL of c, t and f (Part 1a).  For the binding every conditional that   *)
+(* reaches an ordering comparison / min / max (as the operand or below it) is classified by   *)
+(* the coded types of its condition and its two values, "r" (not complex) or "c": "rrr",     *)
+(* "rrc" (complex through the false value only), "rcr", "crr" (through the condition), ...;   *)
+(* a "!" is appended when the conditional itself has a non-real value in some environment    *)
+(* (the complex branch is the one selected there: the rejection is witnessed by a value).    *)
+(* The harness requires the classes a slice is built for to be generated (vacuity).          *)
+RC(n) == IF TypeOf(n) = "complex" THEN "c" ELSE "r"
+CondKind(j) == RC(store[j].args[1]) \o RC(store[j].args[2]) \o RC(store[j].args[3]) \o (IF MayBeComplex(j) THEN "!" ELSE "")
+ComparedBelow(a) == UNION {UNION {Below(store[k].args[i]) : i \in 1..Len(store[k].args)} : k \in CmpBelow(a)}
+CondOperands(a) == {CondKind(j) : j \in {j \in ComparedBelow(a) : store[j].op = "cond"}}
+\* a rejection is WITNESSED when some compared operand has a non-real value in a model environment
+Witnessed(a) == \E k \in CmpBelow(a) : \E i \in 1..Len(store[k].args) : MayBeComplex(store[k].args[i])
+
+-----------------------------------------------------------------------------
 (* Dump for the binding: DumpRec's fields + pass, predicted verdict, diagnostics. *)
 CDumpRec == LET x == LastN  a == x.args[1] IN
   [prog |-> [k \in 1..(Len(store) - NInit) |-> Prog[NInit + k]],
@@ -230,6 +246,8 @@ CDumpRec == LET x == LastN  a == x.args[1] IN
    ncmp |-> Cardinality(CmpBelow(a)),                       \* comparison nodes below
    ncplx |-> Cardinality({k \in Below(a) : store[k].op \in {"conj", "real", "imag"} \/ IsCplxLit(store[k])}),
    inc |-> (x.op = "cmp_check" /\ Incomplete(a)),           \* rejected although always real
+   wit |-> (x.op = "cmp_check" /\ Witnessed(a)),            \* some compared operand has a non-real value
+   condops |-> IF x.op = "cmp_check" THEN SetToSeq(CondOperands(a)) ELSE << >>,
    maybe |-> MayBeComplex(a)]
 DumpInvC == (Live /\ LastN.op \in ModeOps) => PrintT(ToJson(CDumpRec))
 =============================================================================
